@@ -301,4 +301,120 @@ theorem sanityCheck_ok {ash : Bool} (w : World) (hs : InSync ash w) :
       ps1 := by show ∀ f ∈ w1.rem.frames, _; rw [hrem1]; exact hl.ps1
       last := by show w1.rem.last < 256; rw [hrem1]; exact hl.last }
 
+/-- **`subshell()` up to the `yield`**: in sync with a shell in front, spawning a nested shell and
+    running `_init_shell` succeeds for every fragmentation oracle; the remote has ONE more frame — a
+    copy of the current one with fresh options — and the world is in sync with it -/
+theorem subEnter_ok {ash : Bool} (cols rows : Nat) (w : World) (f : Frame) (fs : List Frame)
+    (hs : InSync ash w) (hf : w.rem.frames = f :: fs) :
+    ∃ w', subEnter ash cols rows w = ((.ok (), w'), true) ∧ InSync ash w'
+      ∧ w'.rem.frames = { f with opts := [] } :: f :: fs ∧ w'.oracle = w.oracle := by
+  obtain ⟨hesc, hclS, hclW, hclP, hcont, hne, _⟩ := enter_facts ash
+  have hp : f.ps1 = prompt ash := hs.ps1 f (by rw [hf]; simp)
+  -- 1. the spawn command: a new frame, showing the default prompt
+  have hstep1 : step w.rem ([], 0) (Tty.input (spawnLine ash))
+      = ([], { w.rem with frames := { f with opts := [], ps1 := defaultPs1 } :: f :: fs, last := 0 }) := by
+    rw [clean_input hclS, ← hesc, step_escape w.rem f fs _ _ hf (by cases ash <;> simp [spawnWords]), ← hs.remAsh,
+      builtin_spawn]
+  have ha1 : Answers defaultPs1 w.rem ([], 0) (spawnLine ash) []
+      { w.rem with frames := { f with opts := [], ps1 := defaultPs1 } :: f :: fs, last := 0 } :=
+    ⟨hs.alive, hstep1, ⟨_, _, rfl, rfl⟩⟩
+  obtain ⟨w1, hsl1, hrem1, hor1, hq1, hsame1, hflat1, htick1⟩ :=
+    sendlineR_plain_ok w hs.quiet hs.chBl (clean_forbidden hclS) ha1
+  have hflat1' : flat w1.ch.script = R1 ash := by rw [hflat1, hs.script]; simp [flat, R1]
+  have htick1' : ∀ q ∈ w1.ch.script, q.tick = 0 := htick1 (by rw [hs.script]; simp)
+  -- 2. wait_for_shell: the first `echo TBOT\LOGIN` is answered
+  have hfr1 : w1.rem.frames = { f with opts := [], ps1 := defaultPs1 } :: f :: fs := by rw [hrem1]
+  have ha2 : Answers defaultPs1 w1.rem ([], 0) waitLine b!"TBOTLOGIN\n" (w1.rem.setLast 0) :=
+    ⟨by rw [hfr1]; rfl, by rw [clean_input hclW]; exact step_wait w1.rem _ _ _ hfr1, ⟨_, _, hfr1, rfl⟩⟩
+  have hbl1 : w1.ch.blacklist = blacklist ash := by rw [hsame1.blacklist, hs.chBl]
+  obtain ⟨w2, hsl2, hrem2, hor2, hq2, hsame2, hflat2, htick2⟩ :=
+    sendlineR_plain_ok w1 hq1 hbl1 (clean_forbidden hclW) ha2
+  have hflat2' : flat w2.ch.script = R1 ash ++ R2 := by rw [hflat2, hflat1']; rfl
+  obtain ⟨res, ch3, hexp, ⟨pre, hpre⟩, hsame3, hwf3⟩ := expect_ok b!"TBOTLOGIN" 204 w2.ch hq2 (by decide)
+    (by intro q hq; rw [htick2 htick1' q hq]; exact Nat.zero_le _)
+    (by rw [hflat2']; exact hcont)
+    (by rw [hflat2']; cases ash <;> decide)
+  have hwait : waitForShell 8 204 w1 = (.ok (), { w2 with ch := ch3 }) := by
+    unfold waitForShell
+    rw [hsl2]
+    simp only [hexp]
+  -- 3. the prompt is set
+  have hq3 : Quiet ch3 := hq2.of_same hsame3 hwf3
+  have hsame03 : Same w.ch ch3 := (hsame1.trans hsame2).trans hsame3
+  generalize hw3 : setBlacklist (blacklist ash) { w2 with ch := ch3 } = w3
+  have hq3' : Quiet w3.ch := by
+    subst hw3
+    exact ⟨hq3.deaths, hq3.accept, hq3.slow, hq3.chunk, hq3.slice, hq3.wf⟩
+  have hfr3 : w3.rem.frames = { f with opts := [], ps1 := defaultPs1 } :: f :: fs := by
+    subst hw3; show w2.rem.frames = _; rw [hrem2]; exact hfr1
+  have ha3 : Answers (prompt ash) w3.rem ([], 0) (ps1Line (prompt ash)) []
+      { w3.rem with frames := { f with opts := [], ps1 := prompt ash } :: f :: fs, last := 0 } :=
+    ⟨by rw [hfr3]; rfl, by rw [clean_input hclP]; exact step_ps1 ash w3.rem _ _ _ hfr3, ⟨_, _, rfl, rfl⟩⟩
+  obtain ⟨w4, hsl4, hrem4, hor4, hq4, hsame4, hflat4, _⟩ :=
+    sendlineR_plain_ok w3 hq3' (by subst hw3; rfl) (clean_forbidden hclP) ha3
+  have hsc3 : flat w3.ch.script = flat ch3.script := by subst hw3; rfl
+  generalize hw5 : setPrompt (prompt ash) w4 = w5
+  have hq5 : Quiet w5.ch := by
+    subst hw5
+    exact ⟨hq4.deaths, hq4.accept, hq4.slow, hq4.chunk, hq4.slice, hq4.wf⟩
+  -- the leftover of wait_for_shell, the echo of the PS1 line and the new prompt: the prompt is
+  -- only at the end, whatever the leftover is
+  have hend : OnlyAtEnd (prompt ash)
+      (flat ch3.script ++ (Tty.echo false (ps1Line (prompt ash) ++ [CR]) ++ Tty.cook [] ++ prompt ash)) := by
+    have h0 := noEarly_sound hne
+    have hpre' : pre ++ flat ch3.script = R1 ash ++ R2 := by rw [hpre, hflat2']
+    rw [← hpre'] at h0
+    have h1 : (pre ++ flat ch3.script ++ (Tty.echo false (ps1Line (prompt ash) ++ [CR]) ++ Tty.cook [])) ++ prompt ash
+        = pre ++ (flat ch3.script ++ (Tty.echo false (ps1Line (prompt ash) ++ [CR]) ++ Tty.cook [] ++ prompt ash)) := by
+      simp [List.append_assoc]
+    rw [h1] at h0
+    exact OnlyAtEnd.suffix h0 (by simp only [List.length_append]; omega)
+  obtain ⟨ch6, hrup, hsc6, hsame6⟩ := rup_ok (prompt ash) _ w5.ch hq5 (prompt_ne ash) (by subst hw5; rfl)
+    (by subst hw5; show flat w4.ch.script = _; rw [hflat4, hsc3]) hend
+  have hinit1 : InSync ash { w5 with ch := ch6 } := by
+    have hbl6 : ch6.blacklist = blacklist ash := by
+      rw [hsame6.blacklist]; subst hw5; show w4.ch.blacklist = _; rw [hsame4.blacklist]; subst hw3; rfl
+    have hpr6 : ch6.prompt = some (.lit (prompt ash)) := by rw [hsame6.prompt]; subst hw5; rfl
+    have hrem5 : w5.rem = { w3.rem with frames := { f with opts := [], ps1 := prompt ash } :: f :: fs, last := 0 } := by
+      subst hw5; exact hrem4
+    exact {
+      quiet := quiet_of_nil hq5 hsame6 hsc6
+      script := hsc6
+      chPrompt := hpr6
+      chBl := hbl6
+      remAsh := by show w5.rem.ash = _; rw [hrem5]; subst hw3; show w2.rem.ash = _; rw [hrem2, hrem1]; exact hs.remAsh
+      alive := by show w5.rem.frames.isEmpty = _; rw [hrem5]; rfl
+      ps1 := by
+        show ∀ g ∈ w5.rem.frames, _
+        rw [hrem5]
+        intro g hg
+        simp only [List.mem_cons] at hg
+        rcases hg with rfl | rfl | hg
+        · rfl
+        · exact hp
+        · exact hs.ps1 g (by rw [hf]; simp [hg])
+      last := by show w5.rem.last < 256; rw [hrem5]; exact Nat.zero_lt_succ _ }
+  have hfr5 : ({ w5 with ch := ch6 } : World).rem.frames = { f with opts := [], ps1 := prompt ash } :: f :: fs := by
+    show w5.rem.frames = _; subst hw5; show w4.rem.frames = _; rw [hrem4]
+  -- 4. the remaining lines of `_init_shell`, and the sanity check
+  obtain ⟨w7, hrun7, hs7, hfr7, hor7⟩ := plainCmds_noop (initLines ash cols rows) _ (initLines_noop ash cols rows) hinit1
+  obtain ⟨w8, hrun8, hs8, hfr8, hor8⟩ := sanityCheck_ok w7 hs7
+  refine ⟨w8, ?_, hs8, ?_, ?_⟩
+  · unfold subEnter
+    rw [hsl1]
+    simp only
+    obtain ⟨b, hrupW⟩ : ∃ b, rupW w5 = (.ok b, { w5 with ch := ch6 }) := ⟨_, by unfold rupW; rw [hrup]⟩
+    unfold initShell
+    rw [hwait]
+    simp only [hw3, hsl4, hw5, hrupW, hrun7, hrun8]
+  · rw [hfr8, hfr7, hfr5, ← hp]
+  · rw [hor8, hor7]
+    show w5.oracle = _
+    subst hw5
+    show w4.oracle = _
+    rw [hor4]
+    subst hw3
+    show w2.oracle = _
+    rw [hor2, hor1]
+
 end Env
